@@ -17,7 +17,7 @@ func (*C12) ID() string     { return "C12" }
 func (*C12) Level() string  { return "fault_enumeration" }
 func (*C12) Engine() string { return "PROC+CONC" }
 func (*C12) Rule() string {
-	return "enumeration of the termination matrix, one world process per cell: entry point (Panic, Fatal, their Context variants, LogAttrs/Logit/Log at Panic and Fatal, the four package-level functions) x flags {none, LnoInterrupt, Linterruptalways, both} x process mode {production, testing (argv0 ends in .test plus a -test.* argument)} x logger level {admits, does not admit} x format {json, colored, logfmt}; around the cell a seeded prefix and suffix of calls of every other severity and entry point (negative cases); the error-class destination is a real file read by the parent after the process is gone, events are streamed so that nothing after the crash point is lost; crash point = process death by os.Exit or panic at the tail of the call; distinct = cell index; non-trivial = every cell"
+	return "enumeration of the termination matrix, one world process per cell: entry point (Panic, Fatal, their Context variants, LogAttrs/Logit/Log at Panic and Fatal, the four package-level functions) x flags {none, LnoInterrupt, Linterruptalways, both} x process mode {production, testing (argv0 ends in .test plus a -test.* argument)} x logger level {admits, does not admit} x format {json, colored, logfmt}; around the cell a seeded prefix and suffix of calls of every other severity and entry point (negative cases); the error-class destination is a real file read by the parent after the process is gone, events are streamed so that nothing after the crash point is lost; crash point = process death by os.Exit or panic at the tail of the call; distinct = cell index; non-trivial = every cell; a third of the episodes reach the cell's flag set through a history (SaveFlagsAndMod and its restore function, or AddFlags/RemoveFlags pairs) during which the no-interrupt flag is set and 0-2 Panic/Fatal calls are made that must return normally; the expectation is computed from the flags folded over that history"
 }
 
 var c12Entries = []struct {
